@@ -601,6 +601,26 @@ def radix_accumulations(F, fn_path):
                         if b.get("k") == "PBinding":
                             binders[(b["name"], b.get("lid"))] = r_
 
+    # ... or by the parameter of a closure applied to it: `x.to_digit(R').map(|d| ..)`
+    for m in walk(body, pats=False):
+        if m.get("k") == "MethodCall" and m["name"] in ("map", "and_then", "map_or", "is_some_and") and m.get("args"):
+            rc = peel(m["recv"])
+            if rc.get("k") == "MethodCall" and rc["name"] == "to_digit" and rc["args"]:
+                r_ = lit_value(rc["args"][0])
+                cl_ = peel(m["args"][-1])
+                if cl_.get("k") == "Closure" and len(cl_.get("params", [])) == 1:
+                    for b in walk(cl_["params"][0]):
+                        if b.get("k") == "PBinding":
+                            binders[(b["name"], b.get("lid"))] = r_
+    # ... or by `let d = x.to_digit(R')?;`
+    for st in walk(body, pats=False):
+        if st.get("k") == "Let" and st["pat"].get("k") == "PBinding" and st.get("init") is not None and st.get("els") is None:
+            i_ = peel(st["init"])
+            if i_.get("k") == "Match" and i_.get("src") == "TryDesugar" and i_["scrut"].get("k") == "Call" and i_["scrut"].get("args"):
+                inner = peel(i_["scrut"]["args"][0])
+                if inner.get("k") == "MethodCall" and inner["name"] == "to_digit" and inner["args"]:
+                    binders[(st["pat"]["name"], st["pat"].get("lid"))] = lit_value(inner["args"][0])
+
     out = {}
 
     def is_local(e, name, lid):
